@@ -38,7 +38,12 @@ MANIFEST = {
              "file-name statics, glif element and attribute literals of the writer and of the parser (writer within spec, parser within spec, "
              "writer within parser, parser knows every attribute of the specification), the six transformation attributes tied to the "
              "coefficients the specification ties them to, point types, smooth=yes, format=2. spec_reader_finds_values: the specification-level "
-             "reader inverts the specification-level writer for every glyph description. Behavioural tie in both directions against an "
+             "reader inverts the specification-level writer for every glyph description. Tie to the glif models of C02/C12: "
+             "norad_encoder_read_by_spec_reader (in the tree of what encodeGlif writes - its event list IS encodeGlif - the independent reader "
+             "finds exactly the glyph norad's own parser arrives at, preG of parse_encode, for every valid glyph), "
+             "norad_parser_reads_spec_writer (norad's attribute parsers read every element the specification-level writer writes). "
+             "designspace_attributes_are_spec_attributes: the serde names of src/designspace.rs, field by field, are the designspace "
+             "specification's (a symmetric swap of two renames fails). Behavioural tie in both directions against an "
              "independent Python implementation; 22 surface-syntax defects recorded as known findings."),
     "design_ref": "5 / C05, 6, 8",
     "note": "trusted: Lean kernel + 3 standard axioms; the hand-typed UFO 3 vocabulary; Python xml.etree/plistlib as the independent implementation; the extractor (falls back to a pinned table)",
